@@ -579,9 +579,6 @@ def level1Child (fs : FS) : String → Sys → Option String → Json → Res L1
   | "space", us, base, j => spaceFromDict us base fs j
   | _, _, _, _ => .error .typeError
 
-/-- the constructor default `space = RDGridSpace()` (built once, in the default units system) -/
-def defaultSpace? : Res L1 := spaceFromDict Sys.default none (fun _ => none) (.obj [])
-
 /-- `RDSystem.space` setter: no cell may name an environment beyond the network's list -/
 def finishSystem (o : L2) : Res L2 :=
   let nenv : Nat := match o.lookup "network" with
@@ -595,21 +592,31 @@ def finishSystem (o : L2) : Res L2 :=
     | _ => []
   if envs.any (fun e => decide (e ≥ (nenv : Int))) then .error .badValue else .ok o
 
+/-- does the reader fill an omitted "space" itself with a grid in the system's units (documented default),
+or leave it to the constructor default `RDGridSpace()` (default units)?  Read from the generated table. -/
+def systemSpaceInherits : Bool :=
+  DictKeys.system.readerDefault.any fun p => p.1 == "space" && p.2 == "RDGridSpace(units_system=da[\"units_system\"])"
+
 def systemFromDictRaw (parent : Sys) (base : Option String) (fs : FS) (j : Json) : Res L2 :=
   match j with
   | .obj kv =>
-    -- "space" absent: the constructor default object, not a dictionary read in the system's units
     match processKeys DictKeys.system.aliases kv with
     | .error e => .error e
     | .ok d =>
-      if (d.lookup "space").isSome then
+      let absent : Bool := match d.lookup "space" with
+        | none => true
+        | some .null => DictKeys.system.noneAsOmitted.contains "space"
+        | some _ => false
+      if !absent then
         fromDictG DictKeys.system systemFields parent base fs (level1Child fs) j
       else
-        match fromDictG DictKeys.system (systemFields.filter fun f => f.key != "space") parent base fs (level1Child fs) j,
-              defaultSpace? with
-        | .ok o, .ok sp => .ok (o ++ [("space", .child sp)])
-        | .error e, _ => .error e
-        | _, .error e => .error e
+        match fromDictG DictKeys.system (systemFields.filter fun f => f.key != "space") parent base fs (level1Child fs) j with
+        | .error e => .error e
+        | .ok o =>
+          -- `RDGridSpace(units_system=us)` = the empty space dictionary read with parent `us`
+          match spaceFromDict (if systemSpaceInherits then objSys o else Sys.default) none (fun _ => none) (.obj []) with
+          | .error e => .error e
+          | .ok sp => .ok (o ++ [("space", .child sp)])
   | _ => .error .typeError
 
 def systemFromDict (parent : Sys) (base : Option String) (fs : FS) (j : Json) : Res L2 :=
